@@ -422,6 +422,7 @@ func (p *Prog) verifyFunc(fn *ssa.Function) (u *Unit) {
 		if len(rets) == 1 {
 			env.names["result"] = rets[0]
 		}
+		u.resultNames = env.names
 		// error propagation (C12): an error returned by a call on this path is reported by this function,
 		// unless the contract tolerates dropping it under a stated condition
 		if u.fc.Opts["propagate-errors"] != "" && len(rets) > 0 && rets[len(rets)-1].Sort == "Iface" {
